@@ -17,7 +17,7 @@ KCls == {"kFlowDecomp", "kMinPathError", "kLeastAbsErrors", "kPathCover", "kFlow
          "kLeastAbsErrorsCycles", "kPathCoverCycles"}
 StartCls == Classes \ {"kFlowDecomp"}
 
-Defects == {"nonstring_node", "cyclic_graph", "no_source", "no_sink", "negative_weight", "missing_weight",
+Defects == {"nonstring_node", "cyclic_graph", "no_source", "no_sink", "negative_weight", "negative_first_weight", "negative_last_weight", "missing_weight",
             "nonconserving_flow", "nonconserving_behind_zero_flow", "nonconserving_by_one_in_millions", "constraint_absent_edge", "constraint_not_list_of_lists", "constraint_bad_edge_shape",
             "constraint_empty", "coverage_zero", "coverage_above_one", "coverage_negative", "k_zero", "k_negative",
             "k_not_int", "bad_weight_type", "bad_origin", "unknown_start", "unknown_end", "scaling_above_one",
@@ -26,7 +26,7 @@ Defects == {"nonstring_node", "cyclic_graph", "no_source", "no_sink", "negative_
 Applies(cls, d) ==
   CASE d = "cyclic_graph" -> cls \in DAGCls
     [] d \in {"no_source", "no_sink", "source_only_self_loop", "sink_only_self_loop"} -> cls \in CycCls
-    [] d \in {"negative_weight", "missing_weight", "bad_weight_type"} -> cls \notin CoverCls
+    [] d \in {"negative_weight", "negative_first_weight", "negative_last_weight", "missing_weight", "bad_weight_type"} -> cls \notin CoverCls
     [] d \in {"nonconserving_flow", "nonconserving_behind_zero_flow", "nonconserving_by_one_in_millions"} -> cls \in {"MinFlowDecomp", "kFlowDecomp"}
     [] d \in {"k_zero", "k_negative", "k_not_int"} -> cls \in KCls
     [] d \in {"unknown_start", "unknown_end"} -> cls \in StartCls
@@ -42,8 +42,10 @@ Conflict(a, b) ==
   \/ {a, b} \subseteq {"constraint_absent_edge", "constraint_not_list_of_lists", "constraint_bad_edge_shape", "constraint_empty"}
   \/ {a, b} \subseteq {"scaling_above_one", "scaling_negative"}
   \/ {a, b} \subseteq {"cyclic_graph", "no_source", "no_sink", "source_only_self_loop", "sink_only_self_loop"}
-  \/ {a, b} \subseteq {"negative_weight", "missing_weight", "nonconserving_flow", "nonconserving_behind_zero_flow", "nonconserving_by_one_in_millions"}
+  \/ {a, b} \subseteq {"negative_weight", "negative_first_weight", "negative_last_weight", "missing_weight", "nonconserving_flow", "nonconserving_behind_zero_flow", "nonconserving_by_one_in_millions"}
 
+(* negative_first_weight / negative_last_weight: the negative value sits on the first / last edge in the iteration order of the
+   caller's graph (a check folded into a running maximum or a loop that stops early skips exactly these positions) *)
 (* defects that a class does not document as ValueError but that must still never yield a "solved" model *)
 (* nonconserving_by_one_in_millions: integer flows in the millions, one inner node off by 1 (conservation is exact, not relative);
    nonconserving_behind_zero_flow: the unbalanced node has only zero-flow edges on one side (it is an inner node all the same) *)
